@@ -34,6 +34,7 @@ import (
 
 type flattenStats struct {
 	NewFuncs []string `json:"new_helpers"`
+	Renamed  []string `json:"renamed_functions"`
 	Inlined  []string `json:"inlined_calls"`
 	Skipped  []string `json:"skipped_calls"`
 	Rounds   int      `json:"rounds"`
@@ -74,9 +75,123 @@ func recvTypeName(fd *ast.FuncDecl) string {
 	return "?"
 }
 
+// fnFP is a syntactic fingerprint of a function, used to recognise a function that was merely renamed.
+type fnFP struct {
+	Sig   string          // parameter and result types as written, names dropped
+	Feats map[string]bool // names called, fields/methods selected, string literals
+}
+
+func fingerprintOf(fset *token.FileSet, fd *ast.FuncDecl) *fnFP {
+	fp := &fnFP{Feats: map[string]bool{}}
+	var sb strings.Builder
+	writeTypes := func(fl *ast.FieldList) {
+		sb.WriteString("(")
+		if fl != nil {
+			for _, f := range fl.List {
+				n := len(f.Names)
+				if n == 0 {
+					n = 1
+				}
+				for i := 0; i < n; i++ {
+					sb.WriteString(nodeStr(fset, f.Type))
+					sb.WriteString(",")
+				}
+			}
+		}
+		sb.WriteString(")")
+	}
+	writeTypes(fd.Type.Params)
+	writeTypes(fd.Type.Results)
+	fp.Sig = sb.String()
+	self := fd.Name.Name
+	ast.Inspect(fd.Body, func(n ast.Node) bool {
+		switch x := n.(type) {
+		case *ast.SelectorExpr:
+			if x.Sel.Name != self {
+				fp.Feats["."+x.Sel.Name] = true
+			}
+		case *ast.CallExpr:
+			if id, ok := x.Fun.(*ast.Ident); ok && id.Name != self {
+				fp.Feats["()"+id.Name] = true
+			}
+		case *ast.BasicLit:
+			if x.Kind == token.STRING && len(x.Value) > 4 && len(x.Value) < 60 {
+				fp.Feats["s"+x.Value] = true
+			}
+		}
+		return true
+	})
+	return fp
+}
+
+func jaccard(a, b map[string]bool) float64 {
+	if len(a) == 0 && len(b) == 0 {
+		return 1
+	}
+	inter := 0
+	for k := range a {
+		if b[k] {
+			inter++
+		}
+	}
+	return float64(inter) / float64(len(a)+len(b)-inter)
+}
+
+// detectRenames: a baseline function that is gone, and a new function of the same package and receiver with the same
+// signature and a very similar body, are the same function under a new name. Returns new key -> old key.
+func detectRenames(base, cur map[string]*fnFP) map[string]string {
+	split := func(k string) (owner, name string) {
+		i := strings.LastIndex(k, ".")
+		return k[:i], k[i+1:]
+	}
+	out := map[string]string{}
+	taken := map[string]bool{}
+	var missing []string
+	for k := range base {
+		if cur[k] == nil {
+			missing = append(missing, k)
+		}
+	}
+	sort.Strings(missing)
+	for _, old := range missing {
+		oOwner, _ := split(old)
+		best, second := "", ""
+		bs, ss := 0.0, 0.0
+		var cands []string
+		for k := range cur {
+			if base[k] != nil || taken[k] {
+				continue
+			}
+			if ow, _ := split(k); ow != oOwner {
+				continue
+			}
+			if cur[k].Sig != base[old].Sig {
+				continue
+			}
+			cands = append(cands, k)
+		}
+		sort.Strings(cands)
+		for _, k := range cands {
+			sc := jaccard(base[old].Feats, cur[k].Feats)
+			if sc > bs {
+				second, ss = best, bs
+				best, bs = k, sc
+			} else if sc > ss {
+				second, ss = k, sc
+			}
+		}
+		_ = second
+		if best != "" && bs >= 0.6 && bs-ss >= 0.15 {
+			out[best] = old
+			taken[best] = true
+		}
+	}
+	return out
+}
+
 // scanInventory parses (syntax only) every non-test Go file of the module's subject packages.
-func scanInventory(repo string, overlay map[string][]byte) (map[string]bool, error) {
-	inv := map[string]bool{}
+func scanInventory(repo string, overlay map[string][]byte) (map[string]*fnFP, error) {
+	inv := map[string]*fnFP{}
 	fset := token.NewFileSet()
 	err := filepath.Walk(repo, func(path string, info os.FileInfo, err error) error {
 		if err != nil {
@@ -104,7 +219,7 @@ func scanInventory(repo string, overlay map[string][]byte) (map[string]bool, err
 		pkgRel := filepath.Dir(rel)
 		for _, d := range f.Decls {
 			if fd, ok := d.(*ast.FuncDecl); ok && fd.Body != nil {
-				inv[funcInventoryKey(pkgRel, recvTypeName(fd), fd.Name.Name)] = true
+				inv[funcInventoryKey(pkgRel, recvTypeName(fd), fd.Name.Name)] = fingerprintOf(fset, fd)
 			}
 		}
 		return nil
@@ -115,18 +230,35 @@ func scanInventory(repo string, overlay map[string][]byte) (map[string]bool, err
 //go:embed baseline_funcs.txt
 var baselineFuncs string
 
-func loadBaselineInventory(_ string) (map[string]bool, error) {
-	out := map[string]bool{}
+func loadBaselineInventory(_ string) (map[string]*fnFP, error) {
+	out := map[string]*fnFP{}
 	for _, l := range strings.Split(baselineFuncs, "\n") {
-		if l = strings.TrimSpace(l); l != "" && !strings.HasPrefix(l, "#") {
-			out[l] = true
+		if l = strings.TrimRight(l, "\r "); l == "" || strings.HasPrefix(l, "#") {
+			continue
 		}
+		parts := strings.SplitN(l, "\t", 3)
+		fp := &fnFP{Feats: map[string]bool{}}
+		if len(parts) > 1 {
+			fp.Sig = parts[1]
+		}
+		if len(parts) > 2 {
+			for _, f := range strings.Split(parts[2], "\x1f") {
+				if f != "" {
+					fp.Feats[f] = true
+				}
+			}
+		}
+		out[strings.TrimSpace(parts[0])] = fp
 	}
 	if len(out) == 0 {
 		return nil, fmt.Errorf("empty baseline inventory")
 	}
 	return out, nil
 }
+
+// renamedFuncs (new inventory key -> baseline key) is computed once per analysed tree, before flattening, and consumed by
+// the loader: a renamed function keeps its baseline name in every rule.
+var renamedFuncs = map[string]string{}
 
 // flattenOverlay returns an overlay (file -> new content) in which calls to new unexported helpers are expanded.
 func flattenOverlay(repo, verifDir, tags string) (map[string][]byte, *flattenStats, error) {
@@ -136,6 +268,13 @@ func flattenOverlay(repo, verifDir, tags string) (map[string][]byte, *flattenSta
 		return nil, st, nil // no baseline: no flattening
 	}
 	overlay := map[string][]byte{}
+	if cur, err := scanInventory(repo, nil); err == nil {
+		renamedFuncs = detectRenames(base, cur)
+		for nk, ok := range renamedFuncs {
+			st.Renamed = append(st.Renamed, ok+" -> "+nk)
+		}
+		sort.Strings(st.Renamed)
+	}
 	for round := 0; round < 6; round++ {
 		inv, err := scanInventoryWithOverlay(repo, overlay)
 		if err != nil {
@@ -143,7 +282,7 @@ func flattenOverlay(repo, verifDir, tags string) (map[string][]byte, *flattenSta
 		}
 		newByPkg := map[string]map[string]bool{} // pkgRel -> inventory keys
 		for k := range inv {
-			if base[k] {
+			if base[k] != nil || renamedFuncs[k] != "" {
 				continue
 			}
 			name := k[strings.LastIndex(k, ".")+1:]
@@ -224,7 +363,7 @@ func flattenOverlay(repo, verifDir, tags string) (map[string][]byte, *flattenSta
 	return overlay, st, nil
 }
 
-func scanInventoryWithOverlay(repo string, overlay map[string][]byte) (map[string]bool, error) {
+func scanInventoryWithOverlay(repo string, overlay map[string][]byte) (map[string]*fnFP, error) {
 	return scanInventory(repo, overlay)
 }
 
